@@ -394,3 +394,71 @@ pub fn ill_ctor(rng: &mut Rng, pks: &[PK]) -> Spec {
         _ => IllCtor::Radix3Len(*rng.pick(&[0usize, 2, 6, 12, 18, 28, 80, 100, 242])),
     })
 }
+
+/// Systematic small constructor nests (C12): every two-level nest over a small alphabet of leaves, so that coincidences
+/// between an outer algorithm's scratch arithmetic and its inner transforms' advertised needs (which random nests hit
+/// with probability ~1/n) are enumerated instead of hoped for.
+pub fn small_level1() -> Vec<Spec> {
+    let bx = Box::new;
+    let mut leaves: Vec<Spec> = [2usize, 3, 4, 5, 7, 8, 16].iter().map(|&n| Spec::Butterfly(n)).collect();
+    leaves.extend([1usize, 2, 3, 4, 5, 6, 7].iter().map(|&n| Spec::Dft(n)));
+    leaves.push(Spec::Radix4(4));
+    leaves.push(Spec::Planned(PK::Scalar, 6));
+    let mut v = leaves.clone();
+    for n in 1..=5usize {
+        for l in &leaves {
+            if l.len() >= 2 * n - 1 && l.len() <= 2 * n + 3 {
+                v.push(Spec::Bluestein(n, bx(l.clone())));
+            }
+        }
+    }
+    for l in &leaves {
+        if is_prime(l.len() + 1) {
+            v.push(Spec::Raders(bx(l.clone())));
+        }
+        if l.len() <= 5 {
+            v.push(Spec::Radix4Base(1, bx(l.clone())));
+            v.push(Spec::Radix3Base(1, bx(l.clone())));
+        }
+    }
+    v
+}
+
+pub fn systematic_nests() -> &'static Vec<Spec> {
+    static N: std::sync::OnceLock<Vec<Spec>> = std::sync::OnceLock::new();
+    N.get_or_init(|| {
+        let bx = Box::new;
+        let s1 = small_level1();
+        let mut v = Vec::new();
+        for a in &s1 {
+            for b in &s1 {
+                if a.len() * b.len() > 600 {
+                    continue;
+                }
+                v.push(Spec::MixedRadix(bx(a.clone()), bx(b.clone())));
+                v.push(Spec::MixedRadixSmall(bx(a.clone()), bx(b.clone())));
+                if gcd(a.len(), b.len()) == 1 {
+                    v.push(Spec::GoodThomas(bx(a.clone()), bx(b.clone())));
+                    v.push(Spec::GoodThomasSmall(bx(a.clone()), bx(b.clone())));
+                }
+            }
+            if a.is_planned() || matches!(a, Spec::Butterfly(_) | Spec::Dft(_) | Spec::Radix4(_)) {
+                continue; // unary constructors over leaves are level 1 already
+            }
+            for n in 1..=(a.len() + 1) / 2 {
+                if 2 * n - 1 <= a.len() && a.len() <= 2 * n + 2 {
+                    v.push(Spec::Bluestein(n, bx(a.clone())));
+                }
+            }
+            if is_prime(a.len() + 1) {
+                v.push(Spec::Raders(bx(a.clone())));
+            }
+            if a.len() <= 40 {
+                v.push(Spec::Radix4Base(1, bx(a.clone())));
+                v.push(Spec::Radix3Base(1, bx(a.clone())));
+                v.push(Spec::Radix4Base(0, bx(a.clone())));
+            }
+        }
+        v
+    })
+}
